@@ -146,7 +146,9 @@ def job_equivariance(cfg):
     base = run_all(Wa, Wb, fields, weights, 1)
     scale = {k: max(1.0, np.abs(v).max()) for k, v in base.items() if not k.startswith("_")}
     # cisd/ucisd cast one energy intermediate to complex64: arithmetic comparisons at that precision
-    tolk = lambda k: (2e-6 if (k == "energy" and kind in ("cisd", "cisd_faster", "ucisd")) else 1e-12)
+    # ... and the finite-difference energies of the AD trials amplify round-off by 1/eps^2 = 1e8
+    tolk = lambda k: (2e-6 if (k == "energy" and kind in ("cisd", "cisd_faster", "ucisd")) else
+                      1e-6 if (k == "energy" and kind in trials.AUTO_KINDS) else 1e-12)
     # (1) permutations
     for pi in perms(npop):
         pi = list(pi)
